@@ -44,9 +44,9 @@ def adversarial_policy(rng, nw):
 
 def scenarios(ck):
     rng = ck.rng
-    n_random = ck.n(70, 1500)
-    n_adv = ck.n(90, 2500)
-    n_repeat = ck.n(25, 400)
+    n_random = ck.n(70, 1000)
+    n_adv = ck.n(90, 1500)
+    n_repeat = ck.n(25, 250)
     yield X.sanity_scenario()
     for i in range(n_random):
         nt = rng.randint(2, 6)
@@ -80,7 +80,7 @@ def enumerated(ck, b):
     plans = ck.n([('one', 2, 1, 3, 'dict')],
                  [('one', 2, 1, None, 'dict'), ('one', 2, 2, None, 'file'), ('one', 2, 1, 4, 'redis'), ('one', 3, 1, 2, 'dict'),
                   ('indep2', 2, 1, 2, 'dict'), ('chain2', 2, 1, 2, 'dict'), ('chain2', 2, 2, 2, 'redis'), ('fork', 2, 1, 2, 'dict'),
-                  ('chain3', 2, 1, 2, 'file'), ('join', 2, 1, 1, 'dict')])
+                  ('chain3', 2, 1, 2, 'dict'), ('join', 2, 1, 1, 'dict')])
     for shape, nw, nr_wait, bound, backend in plans:
         sc0 = {'program': X.small_program(shape), 'backend': backend, 'prefill': [], 'keep_going': False, 'keep_failed': False, 'coarse': True,
                'phases': [{'workers': [{'nr_wait': nr_wait} for _ in range(nw)], 'policy': {}}]}
